@@ -712,6 +712,9 @@ def e2e(ctx):
 
 # ------------------------------------------------------------------ e2e tier 2: seeded random scheduler on real nodes (h_paysched)
 STALE_KEY = "C03:stale-manager-fails-settled-payment"
+# a resolution (of the payment or of one MPP part) was handled, the monitor released it, and the sender restarts
+# from a manager persisted before that: the restored manager waits for that part for ever
+LOST_KEY = "C03:stale-manager-loses-handled-resolution"
 
 DIRECTED = {
     # one path behind an in-progress monitor update, the other path's first hop gone (both orders)
@@ -720,11 +723,25 @@ DIRECTED = {
     "mpp_inprogress_plus_failing_path_claimed": ["cfg 2 0 1 0 0", "persist 0 1", "disconnect 0 2", "sendmpp 3000", "persist 0 0", "pump", "silence", "pump"],
     # an add waits in the holding cell behind a monitor update and cannot be sent any more when it is freed
     "holding_cell_add_freed_after_config_change": ["cfg 0 1 0 0 0", "persist 0 1", "send 5000 0", "send 0 0", "config 0 0 1 0", "persist 0 0", "pump", "claim", "pump"],
+    # ... the update in progress is the one for the peer's last commitment_signed: when it completes the channel
+    # awaits nothing, the cell is freed by the manager's own check and the add is the only thing in it
+    "holding_cell_add_unsendable_when_freed_by_manager": ["cfg 0 1 0 0 0", "send 5000 0", "deliver 0", "deliver 0", "persist 0 1", "deliver 0", "send 0 0", "config 0 0 1 0",
+                                                          "persist 0 0", "pump", "claim", "pump"],
+    "holding_cell_add_unsendable_when_freed_by_manager_line": ["cfg 1 1 1 0 0", "send 4000 0", "deliver 0", "deliver 0", "persist 0 1", "deliver 0", "send 1 2", "config 0 0 1 1", "config 0 1 1 1",
+                                                               "complete 0", "pump", "persist 0 0", "pump", "claim", "pump"],
     "holding_cell_add_freed_after_config_change_line": ["cfg 1 1 0 0 0", "persist 0 1", "send 4000 1", "send 0 1", "send 1 0", "config 0 0 1 0", "complete 0", "pump", "persist 0 0", "pump", "claim", "fail", "pump"],
     # the HTLC is only in the previous (unrevoked) counterparty commitment when the channel closes with
     # a commitment lacking it; the sender restarts before it polled its monitor
     "htlc_only_in_prev_counterparty_commitment_reload": ["cfg 0 1 0 0 0", "send 5000 0", "pump", "fail", "deliver 0", "deliver 0", "deliver 0", "disconnect 0 1",
                                                          "fclose 0 0", "snapshot", "freeze", "mine", "blocks 6", "reload 1", "pump"],
+    # ... its manager has taken the MonitorEvent out of the monitor, but was not persisted afterwards
+    "htlc_only_in_prev_counterparty_commitment_lost_monitor_event": ["cfg 0 1 0 0 0", "send 5000 0", "pump", "fail", "deliver 0", "deliver 0", "deliver 0", "disconnect 0 1",
+                                                                     "fclose 0 0", "snapshot", "freeze", "mine", "blocks 6", "halfpoll", "reload 1000", "pump"],
+    "htlc_only_in_prev_counterparty_commitment_lost_monitor_event_line": ["cfg 1 1 0 2 0", "send 5000 0", "pump", "fail", "pump", "send 3000 0", "pump", "fail", "deliver 0", "deliver 0", "deliver 0",
+                                                                          "deliver 0", "deliver 0", "disconnect 0 1", "fclose 0 0", "snapshot", "freeze", "mine", "blocks 6", "halfpoll",
+                                                                          "reload 1000", "reconnect 0 1", "pump"],
+    "lost_monitor_event_of_onchain_claim": ["cfg 0 1 0 1 0", "send 5000 0", "pump", "disconnect 0 1", "fclose 1 0", "claim", "snapshot", "freeze", "mine", "blocks 3", "mine", "blocks 6", "halfpoll",
+                                            "reload 1000", "pump"],
     "htlc_only_in_prev_counterparty_commitment_reload_line": ["cfg 1 1 0 0 0", "send 5000 0", "pump", "fail", "pump", "send 3000 0", "pump", "fail", "deliver 0", "deliver 0", "deliver 0", "deliver 0", "deliver 0",
                                                               "disconnect 0 1", "fclose 0 0", "snapshot", "freeze", "mine", "blocks 6", "reload 1", "reconnect 0 1", "pump"],
     # plain restarts
@@ -733,16 +750,59 @@ DIRECTED = {
 }
 
 
+def motif(rng, topo, legacy, n):
+    """A short stretch of steps that steers into a region plain random steps rarely reach; every parameter is
+    random and single steps are dropped or repeated at random, so the neighbourhood is explored as well."""
+    k = rng.below(4)
+    small = rng.choice([0, 1, 300])
+    big = 2000 + rng.below(6000)
+    if k == 0:
+        # an add enters the holding cell behind a monitor update in progress; something changes before it is freed
+        m = ["send %d %d" % (big, rng.below(3))] + ["deliver 0"] * rng.below(4) + ["persist 0 1"] + ["deliver 0"] * rng.below(2) + \
+            ["send %d %d" % (small, rng.below(3)), "config 0 %d %d %d" % (rng.below(4), rng.below(3), rng.choice([0, 1, 1000]))] + \
+            [rng.choice(["persist 0 0", "complete 0"]), "pump"]
+    elif k == 1:
+        # a resolution travels back step by step, the channel closes in the middle, the sender restarts
+        m = ["send %d 0" % big, "pump", rng.choice(["fail", "claim"])] + ["deliver 0"] * (1 + rng.below(6)) + ["disconnect 0 1"] + \
+            (["fclose %d %d" % (rng.below(2), rng.below(2))] if legacy else []) + ["snapshot", "freeze", "mine", "blocks %d" % rng.choice([1, 5, 6, 7])] + \
+            (["halfpoll"] if rng.chance(1, 2) else []) + ["reload %d" % (1000 + rng.below(2)), "reconnect 0 1", "pump"]
+    elif k == 2 and topo == 2:
+        # a two-path payment with one first hop behind a monitor update in progress and the other in trouble
+        m = ["persist 0 1"] + ([rng.choice(["disconnect 0 1", "disconnect 0 2", "config 0 %d 1 0" % rng.below(4)])] if rng.chance(2, 3) else []) + \
+            ["sendmpp %d" % rng.below(4000), rng.choice(["persist 0 0", "complete 0"]), "pump", rng.choice(["fail", "claim", "silence"]), "pump"]
+    else:
+        m = ["send %d %d" % (big, rng.below(3)), "snapshot", "pump", rng.choice(["claim", "fail"])] + ["deliver 0"] * rng.below(5) + \
+            ["freeze"] + ["deliver 0"] * rng.below(3) + (["halfpoll"] if rng.chance(1, 2) else []) + ["reload %d" % (1000 + rng.below(3)), "reconnect 0 1", "pump"]
+    out = []
+    for l in m:
+        r = rng.below(12)
+        if r == 0:
+            continue
+        out.append(l)
+        if r == 1:
+            out.append(l)
+    return out
+
+
 def gen_schedule(rng, nsteps):
     topo = rng.choice([0, 1, 1, 2, 2])
     legacy = 1 if rng.chance(7, 10) else 0
     lines = ["cfg %d %d %d %d 1" % (topo, legacy, 1 if rng.chance(1, 3) else 0, rng.below(3))]
     n = [2, 3, 4][topo]
     reloads = 0
+    motif_at = rng.below(nsteps) if rng.chance(1, 2) else -1
     W = [("send", 14), ("sendmpp", 6 if topo == 2 else 0), ("persist", 8), ("complete", 5), ("deliver", 14), ("pump", 10), ("disconnect", 5),
-         ("reconnect", 7), ("config", 5), ("claim", 6), ("fail", 4), ("silence", 1), ("fclose", 4 if legacy else 0), ("mine", 4), ("blocks", 4), ("tick", 3), ("freeze", 1), ("unfreeze", 1), ("reload", 3)]
+         ("reconnect", 7), ("config", 5), ("claim", 6), ("fail", 4), ("silence", 1), ("fclose", 4 if legacy else 0), ("mine", 4), ("blocks", 4), ("tick", 3), ("freeze", 1), ("unfreeze", 1), ("halfpoll", 2), ("snapshot", 1), ("reload", 3)]
     tot = sum(w for _, w in W)
-    for _ in range(nsteps):
+    for stepno in range(nsteps):
+        if stepno == motif_at:
+            for l in motif(rng, topo, legacy, n):
+                if l.startswith("reload"):
+                    if reloads >= 2:
+                        continue
+                    reloads += 1
+                lines.append(l)
+            continue
         r = rng.below(tot)
         for name, w in W:
             if r < w:
@@ -774,7 +834,7 @@ def gen_schedule(rng, nsteps):
         elif name == "reload":
             if reloads < 2:
                 reloads += 1
-                lines.append("reload %d" % rng.below(40))
+                lines.append("reload %d" % rng.choice([rng.below(40), 1000 + rng.below(3)]))
         else:
             lines.append(name)
     return lines
@@ -819,7 +879,7 @@ def shrink_schedule(ctx, lines, cat, why, budget=120):
 
 def sched_tier(ctx):
     if not os.path.exists(ctx.bin_path("h_paysched")):
-        return [], []
+        return [], [], []
     from concurrent.futures import ThreadPoolExecutor
     rng = ctx.rng.fork("sched")
     n, steps = (150, 60) if ctx.tier == "quick" else (10000, 60)
@@ -830,7 +890,7 @@ def sched_tier(ctx):
     with ThreadPoolExecutor(max_workers=core.NPROC) as ex:
         results = list(ex.map(lambda j: run_schedule(ctx, j[1]), jobs))
     hist, nsteps, npay, nterm = {}, 0, 0, [0, 0]
-    real, stale = [], []
+    real, stale, lost = [], [], []
     for (name, lines), r in zip(jobs, results):
         nsteps += len(lines)
         for pmt in r.get("payments", []):
@@ -841,15 +901,16 @@ def sched_tier(ctx):
             k = l.split()[0]
             hist[k] = hist.get(k, 0) + 1
         if not r.get("ok"):
-            (stale if r.get("cat") == "stale" else real).append((name, lines, r))
+            {"stale": stale, "lost": lost}.get(r.get("cat"), real).append((name, lines, r))
     ctx.coverage["sched_schedules"] = len(jobs)
     ctx.coverage["sched_steps"] = nsteps
     ctx.coverage["sched_action_histogram"] = hist
     ctx.coverage["sched_payments"] = {"accepted": npay, "PaymentSent": nterm[0], "PaymentFailed": nterm[1]}
     ctx.coverage["sched_stale_manager_class_hits"] = len(stale)
+    ctx.coverage["sched_lost_resolution_class_hits"] = len(lost)
     if jobs:
         ctx.samples.append({"schedule": jobs[len(DIRECTED)][1][:12], "result": results[len(DIRECTED)]})
-    return real, stale
+    return real, stale, lost
 
 
 def run(ctx):
@@ -880,7 +941,7 @@ def run(ctx):
     ctx.assumptions += ["HTLCSource (payment id, session priv, path) travels unchanged with each HTLC", "Retry::Timeout / BOLT12 pre-HTLC states not modelled"]
     seqs, dis, judge_fails, idem = functional(ctx, okm)
     e2e_fails = e2e(ctx)
-    sched_real, sched_stale = sched_tier(ctx)
+    sched_real, sched_stale, sched_lost = sched_tier(ctx)
     nfun = ctx.coverage.get("functional_ops", 0)
     ctx.coverage["evaluations"] = nfun + ctx.coverage.get("e2e_scenarios", 0) + ctx.coverage.get("sched_steps", 0)
     ctx.coverage["distinct_nontrivial"] = ctx.coverage.get("functional_distinct_signatures", 0) + len(ctx.coverage.get("e2e_scenario_histogram", {}))
@@ -917,6 +978,10 @@ def run(ctx):
         ctx.violation("scheduled run on real nodes: " + r.get("why", "")[:300],
                       {"broken": "e2e scheduler judge (h_paysched), stale-manager class", "family": name, "schedule": lines, "result": r,
                        "replay_cmd": "printf '<schedule lines>' | %s" % ctx.bin_path("h_paysched")}, True, key=STALE_KEY)
+    for (name, lines, r) in sched_lost[:1]:
+        ctx.violation("scheduled run on real nodes: " + r.get("why", "")[:300],
+                      {"broken": "e2e scheduler judge (h_paysched), lost-resolution class", "family": name, "schedule": lines, "result": r,
+                       "replay_cmd": "printf '<schedule lines>' | %s" % ctx.bin_path("h_paysched")}, True, key=LOST_KEY)
     broken = []
     if not proved:
         broken.append({"obligation": "Coq proof of Props/C03.v", "detail": getattr(ctx, "proof_failure", {"where": gen_err})})
@@ -938,4 +1003,10 @@ def replay(ctx, rep):
             print(impl_line(o), "->", json.dumps(r))
         print("judge:", json.dumps(fails, indent=1))
         return 1 if fails else 0
+    if "schedule" in rep:
+        ctx.build_harness(BINS)
+        r = run_schedule(ctx, rep["schedule"])
+        print("\n".join(rep["schedule"]))
+        print("->", json.dumps(r))
+        return 0 if r.get("ok") else 1
     return 0
